@@ -241,6 +241,10 @@ func parseReq(s string, idx int) *req {
 	}
 	q := &req{kind: f[0], client: f[1], key: f[2], sigtype: f[3], digest: f[4], flag: f[5], body: f[6], idx: idx}
 	q.filename = fmt.Sprintf("f-%03d.%s", idx, map[string]string{"ps": "ps1", "pgp": "bin", "cosign": "json"}[q.sigtype])
+	if idx%4 == 3 {
+		// every fourth request carries a file name that makes its audit record larger than 4 KiB (buffer sizes of bufio, pipes)
+		q.filename = strings.Repeat("p", 200) + "/" + strings.Repeat("q", 4500) + "-" + q.filename
+	}
 	switch {
 	case q.sigtype == "cosign" && q.body == "bad":
 		q.payload = []byte("not a manifest")
